@@ -54,6 +54,15 @@ def _get_env():
     return _ENV
 
 
+def _check(sub, env, case):
+    """sub.check, with a disagreement between delivery channels (core.ChannelDiff, raised inside Env.ev) as a failure"""
+    from .core import ChannelDiff
+    try:
+        return sub.check(env, case)
+    except ChannelDiff as e:
+        return [e.failure]
+
+
 def _norm_fail(sub, case, r):
     out = []
     if r is None:
@@ -75,6 +84,7 @@ def _work(item):
     mod = _load(prop)
     sub = mod.SUBS[si]
     env = _get_env()
+    env.channels = int(os.environ.get('HXVERIF_CHANNELS') or getattr(mod, 'CHANNELS', 0))
     e0, n0 = env.evals, env.nontrivial
     env.classes = {}
     env.cov = {}
@@ -96,7 +106,7 @@ def _work(item):
             ncases += 1
             signal.alarm(WALL_GUARD_S)
             try:
-                r = sub.check(env, case)
+                r = _check(sub, env, case)
             except CaseTimeout:
                 harness.append('wall-clock guard (%ds) hit in %s on case %s' % (
                     WALL_GUARD_S, sub.name, json.dumps(case, default=str)[:300]))
@@ -160,6 +170,7 @@ def replay(prop, path):
         print('replay: unknown sub-check %r' % rec['sub'])
         return 2
     env = _get_env()
+    env.channels = int(os.environ.get('HXVERIF_CHANNELS') or getattr(mod, 'CHANNELS', 0))
     if rec.get('mode') == 'shard' and rec.get('shard'):
         # history replay: every case of the shard before the failing one, in order, then the failing one
         si, unit, k, n, idx = rec['shard']
@@ -168,14 +179,14 @@ def replay(prop, path):
         for i, case in enumerate(sub.cases(tier, unit)):
             if n > 1 and i % n != k:
                 continue
-            got = sub.check(env, case)
+            got = _check(sub, env, case)
             if i == idx:
                 r = _norm_fail(sub, case, got)
                 break
         print('replay %s %s (history: the %d-th case of shard %r/%d of %d, after the cases before it)' % (
             prop, rec['sub'], idx, unit, k, n))
     else:
-        r = _norm_fail(sub, rec['case'], sub.check(env, rec['case']))
+        r = _norm_fail(sub, rec['case'], _check(sub, env, rec['case']))
         print('replay %s %s' % (prop, rec['sub']))
     print(' case    :', json.dumps(rec['case'], default=str)[:2000])
     if r:
@@ -359,6 +370,11 @@ def run(prop, tier):
           'coverage': cov, 'assumptions': list(getattr(mod, 'ASSUMPTIONS', [])),
           'wall_s': round(wall, 3), 'violations': len(new) + max(0, total_fail - stored)}
     cov['known_findings_hit'] = sorted(hit)
+    ch = int(os.environ.get('HXVERIF_CHANNELS') or getattr(mod, 'CHANNELS', 0))
+    if ch:
+        cov['delivery_channel_differential'] = ('1 of every %d variable-binding evaluations repeated through the cell/range '
+                                                'listeners, 1 through custom functions (hash-selected); included in '
+                                                '"evaluations"' % max(2, ch))
     cov['harness_errors'] = len(harness)
     os.makedirs(os.path.join(OUT, 'evidence'), exist_ok=True)
     with open(os.path.join(OUT, 'evidence', '%s.json' % prop), 'w') as f:
